@@ -187,6 +187,7 @@ func run(c *core.Ctx) {
 	// introduce — a bucket table, a chunked loop, a 16-bit id — lie far above S_mesh)
 	k.weldFar()
 	k.indexEdits()
+	k.afterPanic()
 	k.ladder()
 	if c.Expired() {
 		return
